@@ -29,8 +29,8 @@ import (
 	"k8s.io/apimachinery/pkg/api/resource"
 	metav1 "k8s.io/apimachinery/pkg/apis/meta/v1"
 	"pgregory.net/rapid"
+	"k8s.io/apimachinery/pkg/selection"
 	"sigs.k8s.io/controller-runtime/pkg/client"
-	"sigs.k8s.io/controller-runtime/pkg/client/fake"
 
 	"github.com/koordinator-sh/koordinator/apis/thirdparty/scheduler-plugins/pkg/apis/scheduling/v1alpha1"
 
@@ -209,7 +209,7 @@ type c15Req struct {
 
 type c15World struct {
 	qt    *quotaTopology
-	cl    client.Client
+	cl    *c15Client
 	model map[string]*c15Q
 	pods  map[string]c15Pod
 	hist  []string
@@ -227,13 +227,50 @@ type c15World struct {
 	rootIndexStale                   int
 }
 
-func c15NewClient() client.Client {
-	return fake.NewClientBuilder().WithIndex(&corev1.Pod{}, "label.quotaName", func(o client.Object) []string {
-		return []string{o.(*corev1.Pod).Labels[c15LQuotaName]}
-	}).Build()
+// c15Client is the "fake client whose pod list is part of the generated state": a client.Client that answers exactly the
+// two pod-list shapes the webhook issues, with the semantics of the manager's cache reader —
+//   - FieldSelector label.quotaName=<q>  (index registered in pkg/util/fieldindex/register.go: pods with a non-empty
+//     quota-name label, keyed by that label), and
+//   - ListOptions.Namespace=<ns>.
+// Any other selector is an error (as an unregistered index is); any other method panics through the nil embedded
+// interface, which rapid reports. (controller-runtime's fake client rebuilds a REST mapper on every Create: ~7 ms.)
+type c15Client struct {
+	client.Client
+	pods map[string]*corev1.Pod
 }
 
-func c15NewWorld(cl client.Client) *c15World {
+func (c *c15Client) List(_ context.Context, list client.ObjectList, opts ...client.ListOption) error {
+	pl, ok := list.(*corev1.PodList)
+	if !ok {
+		return fmt.Errorf("c15Client: unsupported list type %T", list)
+	}
+	lo := &client.ListOptions{}
+	lo.ApplyOptions(opts)
+	wantQuota, byQuota := "", false
+	if lo.FieldSelector != nil && !lo.FieldSelector.Empty() {
+		reqs := lo.FieldSelector.Requirements()
+		if len(reqs) != 1 || reqs[0].Field != "label.quotaName" || (reqs[0].Operator != selection.Equals && reqs[0].Operator != selection.DoubleEquals) {
+			return fmt.Errorf("c15Client: no index for field selector %q", lo.FieldSelector.String())
+		}
+		wantQuota, byQuota = reqs[0].Value, true
+	}
+	pl.Items = nil
+	for _, n := range vk.SortedKeys(c.pods) {
+		p := c.pods[n]
+		if lo.Namespace != "" && p.Namespace != lo.Namespace {
+			continue
+		}
+		if byQuota && (p.Labels[c15LQuotaName] == "" || p.Labels[c15LQuotaName] != wantQuota) {
+			continue
+		}
+		pl.Items = append(pl.Items, *p.DeepCopy())
+	}
+	return nil
+}
+
+func c15NewClient() *c15Client { return &c15Client{pods: map[string]*corev1.Pod{}} }
+
+func c15NewWorld(cl *c15Client) *c15World {
 	if cl == nil {
 		cl = c15NewClient()
 	}
@@ -248,20 +285,14 @@ func (w *c15World) addPod(ns, quota string) string {
 	if quota != "" {
 		pod.Labels[c15LQuotaName] = quota
 	}
-	if err := w.cl.Create(context.TODO(), pod); err != nil {
-		panic(fmt.Sprintf("c15: fake client refused pod: %v", err))
-	}
+	w.cl.pods[name] = pod
 	w.pods[name] = c15Pod{ns, quota}
 	w.hist = append(w.hist, fmt.Sprintf("addPod %s ns=%s quotaLabel=%q", name, ns, quota))
 	return name
 }
 
 func (w *c15World) delPod(name string) {
-	p := w.pods[name]
-	pod := &corev1.Pod{ObjectMeta: metav1.ObjectMeta{Name: name, Namespace: p.Namespace}}
-	if err := w.cl.Delete(context.TODO(), pod); err != nil {
-		panic(fmt.Sprintf("c15: fake client refused pod delete: %v", err))
-	}
+	delete(w.cl.pods, name)
 	delete(w.pods, name)
 	w.hist = append(w.hist, "delPod "+name)
 }
@@ -1287,10 +1318,7 @@ func TestVerifC15Exhaustive(t *testing.T) {
 	for _, withPod := range []bool{false, true} {
 		cl := c15NewClient() // pods never change inside one environment, so the client is shared by all worlds of it
 		if withPod {
-			pod := &corev1.Pod{ObjectMeta: metav1.ObjectMeta{Name: "p0", Namespace: "default", Labels: map[string]string{c15LQuotaName: "a"}}}
-			if err := cl.Create(context.TODO(), pod); err != nil {
-				t.Fatalf("fake client: %v", err)
-			}
+			cl.pods["p0"] = &corev1.Pod{ObjectMeta: metav1.ObjectMeta{Name: "p0", Namespace: "default", Labels: map[string]string{c15LQuotaName: "a"}}}
 		}
 		build := func(prefix []c15Req) *c15World {
 			w := c15NewWorld(cl)
